@@ -6,6 +6,7 @@
 #include <cstring>
 #include <vector>
 #include <string>
+#include <set>
 extern "C" {
 void *ecw_new(int, size_t); void ecw_symbol(void *, int, uint16_t *, int); void ecw_bool8(void *, int, int); void ecw_boolq15(void *, int, unsigned);
 void ecw_literal(void *, int, int); int ecw_tell(void *); int ecw_done(void *, uint8_t **); void ecw_free(void *); void ecw_update_cdf(uint16_t *, int, int);
@@ -14,6 +15,8 @@ int ecr_literal(void *, int); void ecr_free(void *); void ecr_update_cdf(uint16_
 }
 struct Op { int kind; int tbl; int val; int arg; };  // kind 0 symbol(tbl,val) 1 bool8(val,prob=arg) 2 boolq15(val,f=arg) 3 literal(val,bits=arg)
 struct Case { int adapt; std::vector<std::vector<uint16_t>> tbls; std::vector<Op> ops; };
+static std::set<uint64_t> g_keys;
+static uint64_t fnv(const std::string &s) { uint64_t h = 1469598103934665603ULL; for (unsigned char ch : s) { h ^= ch; h *= 1099511628211ULL; } return h; }
 static long g_cases = 0, g_nontrivial = 0, g_extreme = 0, g_carry = 0, g_long = 0; static std::vector<std::string> g_samples;
 
 static std::vector<uint16_t> make_cdf(int n, int shape, const std::vector<int> &w) {
@@ -28,6 +31,21 @@ static std::vector<uint16_t> make_cdf(int n, int shape, const std::vector<int> &
     for (int i = 0; i < n; i++) { cum += wd[i]; c[i] = (uint16_t)(32768 - cum); }
     c[n] = 0; return c;
 }
+static std::string dump_txt(const Case &c) {   // complete, machine-readable (replay file body)
+    std::string s = std::to_string(c.adapt) + " " + std::to_string(c.tbls.size());
+    for (auto &t : c.tbls) { s += " " + std::to_string(t.size()); for (auto v : t) s += " " + std::to_string(v); }
+    s += " " + std::to_string(c.ops.size());
+    for (auto &o : c.ops) s += " " + std::to_string(o.kind) + " " + std::to_string(o.tbl) + " " + std::to_string(o.val) + " " + std::to_string(o.arg);
+    return s;
+}
+static bool load_txt(FILE *f, Case &c) {
+    int nt; if (fscanf(f, "%d %d", &c.adapt, &nt) != 2) return false;
+    for (int t = 0; t < nt; t++) { int n; if (fscanf(f, "%d", &n) != 1) return false; std::vector<uint16_t> v(n); for (int i = 0; i < n; i++) { int x; if (fscanf(f, "%d", &x) != 1) return false; v[i] = (uint16_t)x; } c.tbls.push_back(v); }
+    int no; if (fscanf(f, "%d", &no) != 1) return false;
+    for (int i = 0; i < no; i++) { Op o; if (fscanf(f, "%d %d %d %d", &o.kind, &o.tbl, &o.val, &o.arg) != 4) return false; c.ops.push_back(o); }
+    return true;
+}
+static void write_fail(const char *failfile, const std::string &e, const Case &c);
 static std::string dump(const Case &c) {
     std::string s = "{\"adapt\":" + std::to_string(c.adapt) + ",\"tables\":[";
     for (size_t t = 0; t < c.tbls.size(); t++) { s += t ? ",[" : "["; for (size_t i = 0; i < c.tbls[t].size(); i++) s += (i ? "," : "") + std::to_string(c.tbls[t][i]); s += "]"; }
@@ -74,13 +92,25 @@ static std::string check(const Case &c, bool count) {
         int nsym = 0; std::vector<int> seen(17, 0); for (auto &o : c.ops) if (o.kind == 0) { nsym++; seen[c.tbls[o.tbl].size() - 1] = 1; }
         int alphs = 0; for (int v : seen) alphs += v;
         bool nt = (c.ops.size() >= 16 && alphs >= 2) || (extreme && nsym > 0) || ff >= 2;
-        if (nt) g_nontrivial++; if (extreme) g_extreme++; if (ff >= 2) g_carry++; if (c.ops.size() >= 500) g_long++;
+        if (nt) { g_nontrivial++; g_keys.insert(fnv(dump_txt(c))); } if (extreme) g_extreme++; if (ff >= 2) g_carry++; if (c.ops.size() >= 500) g_long++;
         if (nt && g_samples.size() < 5 && c.ops.size() < 60) g_samples.push_back(dump(c));
     }
     return err;
 }
+static void write_fail(const char *failfile, const std::string &e, const Case &c) {
+    FILE *f = fopen(failfile, "w"); if (!f) return;
+    fprintf(f, "{\"what\":\"%s\",\"case\":%s,\"txt\":\"%s\"}\n", e.c_str(), dump(c).c_str(), dump_txt(c).c_str()); fclose(f);
+}
 int main(int argc, char **argv) {
-    const char *failfile = argc > 1 ? argv[1] : "/dev/null";
+    // modes:  ec gen <failfile>   (RC_PARAMS from env)   |   ec replay <txtfile>
+    const char *mode = argc > 1 ? argv[1] : "gen";
+    const char *failfile = argc > 2 ? argv[2] : "/dev/null";
+    if (!strcmp(mode, "replay")) {
+        FILE *f = fopen(failfile, "r"); Case c; if (!f || !load_txt(f, c)) { printf("{\"error\":\"cannot read replay\"}\n"); return 2; }
+        std::string e = check(c, false);
+        printf("{\"replay\":1,\"what\":\"%s\"}\n", e.c_str());
+        return e.empty() ? 0 : 1;
+    }
     bool ok1 = rc::check("entropy coder round trip (generated)", [&] {
         Case c; c.adapt = *rc::gen::inRange(0, 2);
         int nt = *rc::gen::inRange(1, 9);
@@ -100,7 +130,7 @@ int main(int argc, char **argv) {
             c.ops.push_back(o);
         }
         std::string e = check(c, true);
-        if (!e.empty()) { FILE *f = fopen(failfile, "w"); if (f) { fprintf(f, "{\"what\":\"%s\",\"case\":%s}\n", e.c_str(), dump(c).c_str()); fclose(f); } }
+        if (!e.empty()) write_fail(failfile, e, c);   // rapidcheck shrinks: the last write is the minimal case
         RC_ASSERT(e.empty());
     });
     // exhaustive: lengths 0..4 x alphabets 2..4 x 6 extreme CDF shapes, adaptation on/off
@@ -116,13 +146,15 @@ int main(int argc, char **argv) {
                         Case c; c.adapt = adapt; c.tbls.push_back(base); long x = code;
                         for (int i = 0; i < len; i++) { Op o{0, 0, (int)(x % n), 0}; x /= n; c.ops.push_back(o); }
                         std::string e = check(c, false); ex++;
-                        if (!e.empty()) { exfail++; if (exfail == 1) { FILE *f = fopen(failfile, "w"); if (f) { fprintf(f, "{\"what\":\"%s\",\"case\":%s}\n", e.c_str(), dump(c).c_str()); fclose(f); } } }
+                        if (!e.empty()) { exfail++; if (exfail == 1 && ok1) write_fail(failfile, e, c); }
                     }
                 }
             }
     printf("{\"generated_ok\":%d,\"cases\":%ld,\"nontrivial\":%ld,\"extreme_cdf\":%ld,\"carry_runs\":%ld,\"long_seqs\":%ld,\"exhaustive_cases\":%ld,\"exhaustive_failures\":%ld,\"samples\":[",
            ok1 ? 1 : 0, g_cases, g_nontrivial, g_extreme, g_carry, g_long, ex, exfail);
     for (size_t i = 0; i < g_samples.size(); i++) printf("%s%s", i ? "," : "", g_samples[i].c_str());
+    printf("],\"keys\":[");
+    { size_t i = 0; for (uint64_t k : g_keys) { if (i >= 30000) break; printf("%s\"%llx\"", i ? "," : "", (unsigned long long)k); i++; } }
     printf("]}\n");
     return (ok1 && exfail == 0) ? 0 : 1;
 }
